@@ -4,6 +4,8 @@ import sys
 class _DPLL:
     def __init__(self, bootstrap_with=None, **kwargs):
         self.clauses = []
+        self._masks = []
+        self._occ = {}
         self.nv = 0
         self.model = None
         self.status = None
@@ -17,6 +19,14 @@ class _DPLL:
             if abs(l) > self.nv:
                 self.nv = abs(l)
         self.clauses.append(clause)
+        p = n = 0
+        for l in clause:
+            if l > 0:
+                p |= 1 << l
+            else:
+                n |= 1 << (-l)
+            self._occ[abs(l)] = self._occ.get(abs(l), 0) + 1
+        self._masks.append((p, n))
 
     def append_formula(self, formula, no_return=True):
         for c in formula:
@@ -24,60 +34,55 @@ class _DPLL:
 
     def solve(self, assumptions=()):
         sys.setrecursionlimit(max(10000, sys.getrecursionlimit()))
-        assign = {}
-        clauses = self.clauses + [[int(a)] for a in assumptions]
-        res = self._search(clauses, assign)
+        masks = list(self._masks)
+        for a in assumptions:
+            a = int(a)
+            masks.append((1 << a, 0) if a > 0 else (0, 1 << (-a)))
+        # static branching order: most frequently occurring variables first (blocking clauses added by an
+        # enumeration loop make the blocked variables the first to be decided, which keeps the search shallow)
+        occ = self._occ
+        self._order = [1 << v for v in sorted(occ, key=lambda v: (-occ[v], v))]
+        res = self._search(masks, 0, 0)
         if res is None:
             self.model = None
             self.status = False
             return False
-        self.model = [v if res.get(v, False) else -v for v in range(1, self.nv + 1)]
+        t = res[0]
+        self.model = [v if (t >> v) & 1 else -v for v in range(1, self.nv + 1)]
         self.status = True
         return True
 
-    @staticmethod
-    def _simplify(clauses, assign):
-        """Unit propagation.  Returns (clauses, assign) or None on conflict."""
-        assign = dict(assign)
+    def _search(self, masks, t, f):
+        """DPLL on bit masks: t / f = sets of variables assigned true / false."""
         while True:
-            unit = None
-            out = []
-            for c in clauses:
-                sat = False
-                rest = []
-                for l in c:
-                    v = assign.get(abs(l))
-                    if v is None:
-                        rest.append(l)
-                    elif v == (l > 0):
-                        sat = True
-                        break
-                if sat:
+            changed = False
+            branch = False
+            rem = 0
+            for p, n in masks:
+                if p & t or n & f:
                     continue
-                if not rest:
+                up = p & ~f
+                un = n & ~t
+                if not up and not un:
                     return None
-                if len(rest) == 1 and unit is None:
-                    unit = rest[0]
-                out.append(rest)
-            if unit is None:
-                return out, assign
-            assign[abs(unit)] = unit > 0
-            clauses = out
-
-    def _search(self, clauses, assign):
-        r = self._simplify(clauses, assign)
-        if r is None:
-            return None
-        clauses, assign = r
-        if not clauses:
-            return assign
-        # branch on a literal of a shortest clause
-        c = min(clauses, key=len)
-        l = c[0]
-        for val in (l > 0, not (l > 0)):
-            a = dict(assign)
-            a[abs(l)] = val
-            res = self._search(clauses, a)
+                if not un and not (up & (up - 1)):
+                    t |= up
+                    changed = True
+                elif not up and not (un & (un - 1)):
+                    f |= un
+                    changed = True
+                else:
+                    branch = True
+                    rem |= up | un
+            if not changed:
+                break
+        if not branch:
+            return t, f
+        for bit in self._order:
+            if bit & rem and not (bit & (t | f)):
+                break
+        for tt, ff in ((t, f | bit), (t | bit, f)):
+            res = self._search(masks, tt, ff)
             if res is not None:
                 return res
         return None
